@@ -106,6 +106,11 @@ func decodeWithContext(
 	for _, t := range m.Tags {
 		b = b.Add(t.Tag, t.Value)
 	}
+	if b == nil {
+		// Only the redacted tags were received. The accessors and the
+		// encoder need a non-nil buffer.
+		b = &logtags.Buffer{}
+	}
 	return &withContext{cause: cause, tags: b, redactedTags: redactedTags}
 }
 
